@@ -34,6 +34,9 @@ var C04Queries = []string{
 	/* 21 */ "SELECT t.a, MAX(t.b) AS m FROM t.sym t WHERE t.b > 0 GROUP BY t.a",
 	/* 22 */ "SELECT x.c FROM (SELECT t.a, COUNT(*) AS c FROM t.sym t GROUP BY t.a) x WHERE x.c > 1",
 	/* 23 */ "SELECT t.a + 0 AS k, u.a AS v FROM t.sym t, u.sym u WHERE t.a + 0 = u.a + 0",
+	/* 24 */ "SELECT t.a, u.b FROM t.sym t JOIN u.sym u ON t.a = u.a WHERE t.b = u.b",
+	/* 25 */ "SELECT t.a, u.b FROM t.sym t LEFT JOIN u.sym u ON t.a = u.a WHERE t.b > 0",
+	/* 26 */ "SELECT t.a, v.b FROM t.sym t JOIN u.sym u ON t.a = u.a JOIN u.sym v ON u.b = v.b",
 }
 
 func ndTables(rows int, accept bool) []*Table {
